@@ -100,15 +100,35 @@ impl Property for C12 {
                 if noise % 5 == 1 {
                     let mut members = vec![a];
                     members.extend(partners);
+                    let mut queries: Vec<C> = queries;
                     // sometimes a member of areal TYPE without area: a Rect collapsed to a segment or a point, a collinear Triangle
+                    // (also one with all three vertices distinct), a Line / LineString without length - on a vertex of the other
+                    // members or, half of the time, away from them; with query points on it, beside it and on its supporting line
                     if noise % 3 == 0 {
                         if let Some(p0) = pool.first().copied() {
-                            let p1 = pool[(noise as usize / 7) % pool.len()];
-                            members.push(match (noise / 5) % 3 {
+                            let mut p1 = pool[(noise as usize / 7) % pool.len()];
+                            let mut p0 = p0;
+                            if (noise / 11) % 2 == 0 {
+                                p1 = (bb.1 .0 + 2 + ((noise / 13) % 3) as i64, bb.0 .1 - 2 + ((noise / 17) % 7) as i64);
+                                if (noise / 19) % 2 == 0 {
+                                    p0 = (p1.0 + ((noise / 23) % 3) as i64, p1.1 + 1 + ((noise / 29) % 2) as i64);
+                                }
+                            }
+                            let d = (p1.0 - p0.0, p1.1 - p0.1);
+                            members.push(match (noise / 5) % 6 {
                                 0 => G::Rect(p0, (p1.0, p0.1)),
                                 1 => G::Rect(p1, p1),
-                                _ => G::Triangle(p0, p1, ((p0.0 + p1.0) / 2 * 2 - p0.0, (p0.1 + p1.1) / 2 * 2 - p0.1)),
+                                2 => G::Triangle(p0, p1, ((p0.0 + p1.0) / 2 * 2 - p0.0, (p0.1 + p1.1) / 2 * 2 - p0.1)),
+                                3 => G::Triangle(p0, p1, (p1.0 + d.0, p1.1 + d.1)),
+                                4 => G::Triangle(p1, p1, p1),
+                                _ => G::Line(p1, p1),
                             });
+                            let qs2 = [p1, (p1.0 + 1, p1.1 + 1), (p1.0 + 3 * d.0, p1.1 + 3 * d.1), (p0.0 - d.0, p0.1 - d.1), (p1.0 + 2, p1.1 - 1)];
+                            for k in 0..5 {
+                                if (noise >> (40 + k)) & 1 == 1 {
+                                    queries.push(qs2[k]);
+                                }
+                            }
                         }
                     }
                     return Case { g: G::Coll(members), queries, xf, noise: 0, mixed: true, trusted: true };
@@ -257,13 +277,32 @@ impl Property for C12 {
             let qp = Point(c.xf.apply(*q));
             let want_d = prims.iter().map(|sg| crate::refgeom::measure::dist2_point_seg(*q, sg.0, sg.1)).min().map(|r| r.to_f64().sqrt()).unwrap_or(0.0);
             let tol_l = 1e-9 * (1.0 + want_d) + 8.0 * ulp(maxabs) / s;
+            // input class for the known-findings matcher: the nearest part of the collection is a member of linear or areal TYPE
+            // without extent (all its coordinates equal), strictly nearer than everything else
+            let zcls = match &c.g {
+                G::Coll(v) if c.mixed => {
+                    let zero = |m: &G| !matches!(m, G::Point(..) | G::MultiPoint(..)) && { let cs = m.coords(); !cs.is_empty() && cs.iter().all(|x| *x == cs[0]) };
+                    let dz = v.iter().filter(|m| zero(m)).map(|m| { let z = m.coords()[0]; crate::refgeom::measure::dist2_point_seg(*q, z, z) }).min();
+                    let rest = G::Coll(v.iter().filter(|m| !zero(m)).cloned().collect());
+                    let dr = primitives(&rest).iter().map(|sg| crate::refgeom::measure::dist2_point_seg(*q, sg.0, sg.1)).min();
+                    match (dz, dr) {
+                        (Some(z), Some(r)) if z < r => "|nearest-is-a-member-without-extent",
+                        (Some(_), None) => "|nearest-is-a-member-without-extent",
+                        _ => "",
+                    }
+                }
+                _ => "",
+            };
+            if !zcls.is_empty() {
+                obs.label("mixed:nearest-is-a-member-without-extent");
+            }
             let r1 = guard(std::panic::AssertUnwindSafe(|| with_concrete!(&gg, x => x.closest_point(&qp))));
             let r2 = guard(std::panic::AssertUnwindSafe(|| gg.closest_point(&qp)));
             for (name, r) in [(format!("closest_point:{tn}"), r1), (format!("closest_point:Geometry[{tn}]"), r2)] {
                 let qctx = || format!("q={:?} ({:?}) {}", q, qp, ctx());
                 match r {
                     Err(p) => obs.fail(format!("{name}|panic|{}", p.site()), format!("{} {}", p, qctx())),
-                    Ok(Closest::Indeterminate) => obs.fail(format!("{name}|indeterminate-for-valid-input"), qctx()),
+                    Ok(Closest::Indeterminate) => obs.fail(format!("{name}|indeterminate-for-valid-input{zcls}"), qctx()),
                     Ok(Closest::Intersection(r)) => {
                         obs.cmp();
                         if l == Loc::E {
@@ -277,13 +316,13 @@ impl Property for C12 {
                     Ok(Closest::SinglePoint(r)) => {
                         obs.cmp();
                         if l != Loc::E {
-                            obs.fail(format!("{name}|single-point-for-intersecting-query"), format!("got SinglePoint({:?}) but the query is {:?}; {}", r, l, qctx()));
+                            obs.fail(format!("{name}|single-point-for-intersecting-query{zcls}"), format!("got SinglePoint({:?}) but the query is {:?}; {}", r, l, qctx()));
                         } else {
                             let (lx, ly) = c.xf.invert_f(r.0);
                             let on = prims.iter().map(|sg| f64_dist_point_seg((lx, ly), sg.0, sg.1)).fold(f64::INFINITY, f64::min);
                             obs.expect(on <= tol_l, &format!("{name}|returned-point-not-on-geometry"), || format!("got {:?} = lattice ({lx},{ly}), {on} away; {}", r, qctx()));
                             let d = ((lx - q.0 as f64).powi(2) + (ly - q.1 as f64).powi(2)).sqrt();
-                            obs.expect((d - want_d).abs() <= tol_l, &format!("{name}|not-the-nearest"), || format!("got {:?} at distance {d}, true distance {want_d}; {}", r, qctx()));
+                            obs.expect((d - want_d).abs() <= tol_l, &format!("{name}|not-the-nearest{zcls}"), || format!("got {:?} at distance {d}, true distance {want_d}; {}", r, qctx()));
                         }
                     }
                 }
